@@ -29,6 +29,8 @@ pub enum RReq {
     Add { menu: u16, uninit: bool, name: Option<u8> },
     Remove { sel: u16 },
     Close { strat: Strat },
+    /// Removes one of the data added since the last close (any of them, not only the last one).
+    RemovePending { sel: u16 },
 }
 
 #[derive(Clone, Debug, Serialize, Deserialize, PartialEq, Eq, Hash)]
@@ -81,12 +83,18 @@ pub fn block(first: bool) -> impl Strategy<Value = Vec<RReq>> {
         prop::option::weighted(0.15, any::<u16>()),
         prop_oneof![6 => Just(Strat::Simple), 2 => Just(Strat::Basic), 1 => Just(Strat::Append), 1 => Just(Strat::AppendReverse)],
         prop::bool::weighted(0.08),
+        prop::option::weighted(0.12, (any::<u16>(), prop::collection::vec(add_req(), 0..3))),
     )
-        .prop_map(|(removes, adds, pending_removal, strat, empty)| {
+        .prop_map(|(removes, adds, pending_removal, strat, empty, mid_removal)| {
             let mut v = vec![];
             if !empty {
                 v.extend(removes);
                 v.extend(adds);
+                if let Some((sel, more)) = mid_removal {
+                    // any of the pending data goes away, then further data are added
+                    v.push(RReq::RemovePending { sel });
+                    v.extend(more);
+                }
                 if let Some(sel) = pending_removal {
                     // the last current datum is the most recently added one
                     v.push(RReq::Remove { sel: sel | 0xF000 });
@@ -280,6 +288,7 @@ pub fn build_ext(h: &RHistory, ext: &Ext) -> Built {
     let mut b = NativeRecordDefinitionBuilder::new(&resolver);
     let mut menu = BTreeMap::new();
     let mut declared = BTreeMap::new();
+    let mut pending_ids: Vec<DatumId> = vec![];
     let mut counter = 0usize;
     let mut ordinal = 0usize;
     let mut closes = 0usize;
@@ -411,6 +420,7 @@ pub fn build_ext(h: &RHistory, ext: &Ext) -> Built {
                     perturbed_id = Some(datum_index(id));
                 }
                 menu.insert(datum_index(id), idx);
+                pending_ids.push(id);
                 declared.insert(datum_index(id), ordinal);
                 ordinal += 1;
                 pending = true;
@@ -421,15 +431,25 @@ pub fn build_ext(h: &RHistory, ext: &Ext) -> Built {
                     continue;
                 }
                 let victim = cur[pick(*sel, cur.len())];
+                pending_ids.retain(|d| *d != victim);
                 removed_names.push(b[victim].name().to_string());
                 b.remove_datum(victim).expect("valid remove");
                 pending = true;
+            }
+            RReq::RemovePending { sel } => {
+                if pending_ids.is_empty() {
+                    continue;
+                }
+                let victim = pending_ids.remove(pick(*sel, pending_ids.len()));
+                removed_names.push(b[victim].name().to_string());
+                b.remove_datum(victim).expect("valid remove of a pending datum");
             }
             RReq::Close { strat } => {
                 if closes >= if h.profile == 3 { 10 } else { MAX_VARIANTS } {
                     continue;
                 }
                 removed_names.clear();
+                pending_ids.clear();
                 close_generic(&mut b, *strat);
                 closes += 1;
                 pending = false;
